@@ -31,7 +31,8 @@ Definition show (r : result) : string :=
 LIBS = gen_impl.LIBS
 ORD_NAMES = ["a", "b", "c", "x", "y", "n", "val", "key", "item", "count", "inter", "interx", "sprinter", "send", "recv", "actor"]
 MIXED_NAMES = ["pointer_x", "my_inter_v", "winter_1", "printer_id", "x_inter_"]
-GET_NAMES = ["inter_name", "inter_count", "inter_debut", "inter_foo", "inter_x1", "inter_", "inter_sender", "inter_receive"]
+GET_NAMES = ["inter_name", "inter_count", "inter_debut", "inter_foo", "inter_x1", "inter_", "inter_sender", "inter_receive",
+             "inter_inter_name", "inter_inter_", "inter_inter_inter_x"]    # the marker is removed once: getter `inter_get_inter_name`
 INNER = ["u8", "(u8, u8)", "Vec<u8>", "String", "Option<Vec<u8>>", "[u8; 2]", "&'static str"]
 PLAIN_TYPES = ["u8", "String", "Vec<u8>", "(u8, i8)", "&'static str", "[u8; 3]", "Option<u8>", "std::sync::Arc<u8>", "u64"]
 END_PREFIX = ["oneshot::", "oneshot::", "tokio::sync::oneshot::", "", "::oneshot::"]
@@ -216,7 +217,9 @@ def mk_case(rng, kinds, lib, irregular=False, interact=None, ret=None):
     is_async = lib != "std" and rng.random() < 0.2
     recv = rng.choice(["&self", "&mut self"])
     sig = ", ".join([recv] + ["%s: %s" % (p["text"], p["ty"]) for p in ps])
-    return {"lib": lib, "interact": interact, "ret": ret_ty, "params": ps, "async": is_async, "kinds": "".join(kinds), "sig": sig}
+    builtin = [p["tree"][1] for p in ps if p["kind"] == "G" and p["tree"][1] in ("inter_name", "inter_count", "inter_debut")]
+    edit_getter = ("inter_get_" + rng.choice(builtin)[6:]) if (interact and builtin and rng.random() < 0.3) else None
+    return {"lib": lib, "interact": interact, "ret": ret_ty, "params": ps, "async": is_async, "kinds": "".join(kinds), "sig": sig, "edit_getter": edit_getter}
 
 
 def method_text(c, name="m"):
@@ -229,7 +232,9 @@ def item_of(cases, names=None):
 
 
 def attr_of(c):
-    return gen_impl.actor_attr(c["lib"], None, debut=True, interact=c["interact"])
+    # a getter the user replaces by a hand-written one (`edit` withholds the generated method): the handle still calls it by name
+    extra = ["edit(live(imp(%s)))" % c["edit_getter"]] if c.get("edit_getter") else []
+    return gen_impl.actor_attr(c["lib"], None, debut=True, interact=c["interact"], extra=extra)
 
 
 def corpus(rng, tier):
